@@ -157,4 +157,21 @@ def c14 (g : Globals) (db : DB) (ss : List Stmt) : Option String :=
 
 def c15 (_g : Globals) (_db : DB) (_ss : List Stmt) : Option String := none
 
+/-- C04: the first region met by a consecutive pair of revisions (starting from the empty history) -/
+def c04Pairs (g : Globals) : DB → List (List Stmt) → Option String
+  | _, [] => none
+  | prev, r :: rest =>
+    match execAll true [] r with
+    | none => some "excluded:ill-formed-input"
+    | some db =>
+      match common g prev db with
+      | some x => some x
+      | none => c04Pairs g db rest
+
+def c04 (g : Globals) (revs : List (List Stmt)) : Option String :=
+  match g.dialect with
+  | .postgres => some "postgres-migrations-not-rereadable"
+  | .sqlite => some "sqlite-one-statement-per-call"
+  | .mysql => c04Pairs g [] revs
+
 end Sqlize.Spec.Scope
